@@ -190,6 +190,9 @@ inductive Op
                         -- receiver advertises as `initialVolume` (a float), `none` = not advertised;
                         -- `accepts` = the receiver accepts SET_PARAMETER volume before RECORD
                         -- (false: Sonos-like, the level is deferred into send_audio)
+  | setRefused (x : FVal)
+                        -- RAOP only, stream active: `set_volume(x)` whose SET_PARAMETER the receiver
+                        -- refuses (or that times out), possibly while other operations overlap it
   | reportOther (x : FVal)
                         -- MRP only: VolumeDidChange addressed to another output device UID
 
@@ -276,6 +279,15 @@ def Raop.step (s : Raop) : Op → Raop × List Ev
       match Raop.volume rnd s with
       | .error e => (s, [.raised e])
       | .ok v => if accepts then Raop.setVolume rnd s v else Raop.deferred rnd s v
+  | .setRefused x =>
+    -- StreamClient.set_volume stores the level only after the receiver acknowledged it:
+    -- a refused request changes nothing, whatever happened while it was in flight
+    match facadeSet x with
+    | .error e => (s, [.raised e])
+    | .ok l =>
+      match pctToDbfsF rnd l with
+      | .error e => (s, [.recv l, .raised e])
+      | .ok d => (s, [.recv l, .tried d, .raised .protocol])
   | .reportOther _ => (s, [])      -- not a RAOP operation (the driver rejects it)
 
 /-- run a history; one event list per operation -/
@@ -319,6 +331,7 @@ def Mrp.step (s : Mrp) : Op → Mrp × List Ev
     | .ok r => (s, [.ret r])
   | .report x => (⟨x⟩, [])
   | .reportOther _ => (s, [])      -- `if inner.outputDeviceUID == self.device_uid` is false: ignored
+  | .setRefused _ => (s, [])       -- not an MRP operation (the driver rejects it)
   | .streamStart _ _ => (s, [])    -- not an MRP operation (the driver rejects it)
 
 def Mrp.run (s : Mrp) : List Op → List (List Ev)
